@@ -38,6 +38,7 @@ MODELS = {
         "inv_op": "trans.scala.inventory",
         "visit_op": "trans.scala.visit",
         "state_op": "trans.scala.state",
+        "sem_op": "trans.scala.sem",
         "reset": True,      # `op` understands {"reset": true}: `_reset_state()` after the history
         "is_op_text": "isInstanceOf",   # text of the operator piece of `is` / `!is` (check_C12 K5)
         "state_attrs": ["ident", "is_unit", "is_lambda", "_cast_integers"],
